@@ -6,7 +6,7 @@ package tests_test
 //   indices_only_grow; claims_never_exceed_the_deposit (every claim succeeds in a seeded random order and paid <= received,
 //   EXACTLY); claims_covered_up_to_index_rounding (the same, but tolerating an excess of at most stake/1e18 + #positions + 1
 //   base units per reward denom: the size of one half-up rounding of an 18-digit index multiplied by the stake);
-//   second_claim_pays_nothing; position_settled_after_claim. No slash and no take-rate step occurs between deposit and claim
+//   second_claim_pays_nothing; position_settled_after_claim; payouts_pro_rata_within_an_asset; rewards_split_between_assets_by_weight (C13). No slash and no take-rate step occurs between deposit and claim
 //   (those are separate recorded C12 findings). Every failed fact is printed as `BOUNDED-FACT-FAILED <fact> :: <inputs>`.
 // This is a bounded check (grid below, seed from VERIF_SEED), never counted as proved. Run by `gvc check C12|C13 --tier thorough`.
 
@@ -26,6 +26,13 @@ import (
 	test_helpers "github.com/terra-money/alliance/app"
 	"github.com/terra-money/alliance/x/alliance/types"
 )
+
+func big18p(a, b math.Int) string {
+	if a.Add(b).GTE(math.NewInt(1_000_000_000_000_000)) {
+		return "@18dec"
+	}
+	return ""
+}
 
 func TestBoundedRewardArithmetic(t *testing.T) {
 	failed := map[string]bool{}
@@ -105,6 +112,12 @@ func TestBoundedRewardArithmetic(t *testing.T) {
 				received := app.BankKeeper.GetAllBalances(ctx, pool)
 				paid := sdk.NewCoins()
 				rng.Shuffle(len(positions), func(i, j int) { positions[i], positions[j] = positions[j], positions[i] })
+				type paidT struct {
+					denom string
+					stake math.Int
+					paid  math.Int
+				}
+				var paidList []paidT
 				for _, p := range positions {
 					del0, _ := app.AllianceKeeper.GetDelegation(ctx, p.who, valAddr, p.denom)
 					asset0, _ := app.AllianceKeeper.GetAssetByDenom(ctx, p.denom)
@@ -122,6 +135,7 @@ func TestBoundedRewardArithmetic(t *testing.T) {
 						continue
 					}
 					paid = paid.Add(c...)
+					paidList = append(paidList, paidT{p.denom, types.GetDelegationTokens(del0, get(), asset0).Amount, c.AmountOf("rwa")})
 					del, found := app.AllianceKeeper.GetDelegation(ctx, p.who, valAddr, p.denom) // (5)
 					require.True(t, found, name)
 					want := types.NewRewardHistories(get().GlobalRewardHistory).GetIndexByAlliance(p.denom)
@@ -135,6 +149,40 @@ func TestBoundedRewardArithmetic(t *testing.T) {
 					again, err := app.AllianceKeeper.ClaimDelegationRewards(ctx, p.who, get(), p.denom)
 					if err != nil || !again.IsZero() {
 						fact("second_claim_pays_nothing", "%s: second claim of %s/%s paid %s err %v", name, p.who, p.denom, again, err)
+					}
+				}
+				// C13: pro rata within an asset (payout / stake equal up to truncation) and between assets by reward weight (one validator: share = weight)
+				perAsset := map[string]math.Int{}
+				for i, a := range paidList {
+					if _, ok := perAsset[a.denom]; !ok {
+						perAsset[a.denom] = math.ZeroInt()
+					}
+					perAsset[a.denom] = perAsset[a.denom].Add(a.paid)
+					for _, b := range paidList[i+1:] {
+						if a.denom != b.denom || !a.stake.IsPositive() || !b.stake.IsPositive() {
+							continue
+						}
+						// |pa/sa - pb/sb| <= 1/sa + 1/sb (one truncation each) + 1e-12 relative (18-digit index)  <=>  |pa*sb - pb*sa| <= sa + sb + rel
+						lhs := a.paid.Mul(b.stake).Sub(b.paid.Mul(a.stake)).Abs()
+						rel := a.paid.Mul(b.stake).Add(b.paid.Mul(a.stake)).Quo(math.NewInt(1_000_000_000_000))
+						if lhs.GT(a.stake.Add(b.stake).Add(rel)) {
+							fact("payouts_pro_rata_within_an_asset"+big18p(a.stake, b.stake), "%s: %s positions of %s and %s were paid %s and %s", name, a.denom, a.stake, b.stake, a.paid, b.paid)
+						}
+					}
+				}
+				big18 := ""
+				if staked.GTE(math.NewInt(1_000_000_000_000_000)) {
+					big18 = "@18dec" // 1e15 base units or more staked: an index increment below 1e-18 per token is lost (or rounded up) entirely
+				}
+				if pa, ok := perAsset[AllianceDenom]; ok {
+					if pb, ok2 := perAsset[AllianceDenomTwo]; ok2 && len(paidList) == len(positions) {
+						wa, wb := w, weights[(wi+1)%len(weights)]
+						// pa / wa == pb / wb up to one truncation per position and the 18-digit index:  |pa*wb - pb*wa| <= (wa + wb) * (#positions + 1) + 1e-9 relative
+						lhs := wb.MulInt(pa).Sub(wa.MulInt(pb)).Abs()
+						bound := wa.Add(wb).MulInt64(int64(len(positions) + 1)).Add(wb.MulInt(pa).Add(wa.MulInt(pb)).Mul(math.LegacyMustNewDecFromStr("0.000000001")))
+						if lhs.GT(bound) {
+							fact("rewards_split_between_assets_by_weight"+big18, "%s: asset %s (weight %s) was paid %s, asset %s (weight %s) was paid %s", name, AllianceDenom, wa, pa, AllianceDenomTwo, wb, pb)
+						}
 					}
 				}
 				for _, pc := range paid {
